@@ -217,15 +217,36 @@ func (r *RdbReader) readFull(p []byte) error {
 }
 
 func (r *RdbReader) ReadBytesP(n int) []byte {
-	p := make([]byte, n)
-	err := r.readFull(p)
+	p, err := r.ReadBytes(n)
 	panicIfErr(err)
 	return p
 }
 
+// readBytesStep bounds what is allocated before the bytes have actually been read, so that a
+// corrupted length yields a read error instead of exhausting memory
+const readBytesStep = 1 << 20
+
 func (r *RdbReader) ReadBytes(n int) ([]byte, error) {
-	p := make([]byte, n)
-	return p, r.readFull(p)
+	if n < 0 {
+		return nil, errors.Errorf("invalid length : %d", n)
+	}
+	if n <= readBytesStep {
+		p := make([]byte, n)
+		return p, r.readFull(p)
+	}
+	p := make([]byte, 0, readBytesStep)
+	for len(p) < n {
+		step := n - len(p)
+		if step > readBytesStep {
+			step = readBytesStep
+		}
+		off := len(p)
+		p = append(p, make([]byte, step)...)
+		if err := r.readFull(p[off:]); err != nil {
+			return nil, err
+		}
+	}
+	return p, nil
 }
 
 func (r *RdbReader) ReadUint8P() uint8 {
@@ -318,6 +339,11 @@ func lzfDecompress(in []byte, outlen int) (out []byte, err error) {
 			err = errors.Errorf("decompress exception: %v", x)
 		}
 	}()
+	// one control sequence of at most 3 bytes yields at most 264 bytes: a larger announced size
+	// can only come from a corrupted length and must not be allocated
+	if outlen < 0 || outlen > len(in)*264 {
+		return nil, errors.Errorf("decompress : invalid output length %d for %d input bytes", outlen, len(in))
+	}
 	out = make([]byte, outlen)
 	i, o := 0, 0
 	for i < len(in) {
